@@ -21,15 +21,15 @@ import (
 //
 //	catalog, page tree,
 //	a string object of p bytes (the pad),
-//	10 streams whose /Length is an indirect reference to the integer object
+//	16 streams whose /Length is an indirect reference to the integer object
 //	    that follows the stream (bodies end in LF, in CR, contain a
 //	    line-initial "endstream", or are empty),
 //	4 integer objects of 17..19 bytes and one small object of every other
 //	type (null, boolean, real, name, string, array, dictionary, reference),
 //
-// written by ref/pdffile's serialiser, for every p in 0..padMax, and every
-// truncation offset from the end of the pad to the end of the file is scanned
-// (offsets inside the pad leave only the pad cut, which the small p cover).
+// written by ref/pdffile's serialiser, for every p in 0..padMax; scanned are
+// the truncation offsets behind the pad that lie within 80 bytes of a multiple
+// of 1024 or within 2 bytes of the end of an object, and the whole file.
 // The run of 32 objects is about 1.1 KiB, so with p up to padMax the
 // run crosses the first and second refill of a 1 KiB buffer at every offset.
 type AlignedCase struct {
@@ -43,10 +43,14 @@ var alignedBodies = [][]byte{
 	[]byte("a\nendstream\nb"),
 	[]byte(""),
 	[]byte("line\r\n"),
+	// line-initial words that the scan takes for section markers
+	[]byte("x\ntrailer was better\n"),
+	[]byte("\nxref\n0 1\n"),
+	[]byte("a\nstartxref\n7\n%%EOF\nb"),
 }
 
 const (
-	alignedStreams = 10
+	alignedStreams = 16
 	alignedInts    = 4
 )
 
@@ -62,7 +66,10 @@ func alignedDoc(p int) ([]byte, error) {
 	rev.Objs = append(rev.Objs,
 		pdffile.ObjDef{Num: 1, Val: pdfsyn.DictV("Type", pdfsyn.NameV("Catalog"), "Pages", pdfsyn.RefV(2, 0))},
 		pdffile.ObjDef{Num: 2, Val: pdfsyn.DictV("Type", pdfsyn.NameV("Pages"), "Kids", pdfsyn.ArrV(), "Count", pdfsyn.IntV(0))},
-		pdffile.ObjDef{Num: 3, Val: pdfsyn.StrV(string(bytes.Repeat([]byte("p"), p)))},
+		// the pad: a string of p bytes followed, in the same object, by names with #xx escapes
+		// and other short tokens, so that these meet the end of the scanner's window as well
+		pdffile.ObjDef{Num: 3, Val: pdfsyn.ArrV(pdfsyn.StrV(string(bytes.Repeat([]byte("p"), p))),
+			pdfsyn.NameV("(x) y"), pdfsyn.NameV("A#B"), pdfsyn.StrV("s(\\)"), pdfsyn.RealV(-1.5), pdfsyn.RefV(2, 0), pdfsyn.NullV())},
 	)
 	num := 4
 	for i := 0; i < alignedStreams; i++ {
@@ -121,8 +128,20 @@ func runAligned(r *ev.Run, p int, only *AlignedCase) {
 	if p > 0 {
 		from = int(d.objs[2].End) - 8
 	}
+	// cuts: within 80 bytes of every multiple of the scanner's buffer size, around the end of
+	// every object, and the whole file (every cut of short documents is the write programs' part)
+	near := map[int]bool{len(data): true}
+	for _, o := range d.objs {
+		for dt := -2; dt <= 2; dt++ {
+			near[int(o.End)+dt] = true
+		}
+		near[int(o.Offset)+1] = true
+	}
 	for t := from; t <= len(data); t++ {
 		if only != nil && only.Cut != t {
+			continue
+		}
+		if m := t % 1024; m > 80 && m < 1024-80 && !near[t] {
 			continue
 		}
 		r.Eval(1)
